@@ -19,15 +19,15 @@ Ltac prep_some Hpre Hlaws Hg :=
   apply negb_true_iff in Hsub; specialize (Hla Hsub); specialize (Hlc Hsub).
 
 Lemma csv_crash_rules_safe :
-  forall (c : cmd) (s : option string) (c0 : string) (bk r : option string) (d0 : string) (k n : nat)
+  forall (c : cmd) (s : option string) (c0 : string) (bk r : option string) (d0 : string) (k j n : nat)
          (f0 f1 f2 : fs),
     csv_pre O c s c0 r -> yaml_laws O s c0 -> csv_crash_guard O s k = true ->
     f0 = csv_budget s c0 bk r d0 ->
-    f1 = crash (mig_ops O c f0 []) k n f0 ->
+    f1 = crash (mig_ops O c f0 []) k j n f0 ->
     f2 = rerun O c f1 [] ->
     csv_rules_safe O f1 f2 c0.
 Proof.
-  intros c s c0 bk r d0 k n f0 f1 f2 Hpre Hlaws Hg E0 E1 E2.
+  intros c s c0 bk r d0 k j n f0 f1 f2 Hpre Hlaws Hg E0 E1 E2.
   destruct s as [s0|].
   - prep_some Hpre Hlaws Hg.
     destruct c; destruct bk as [b0|]; destruct r as [r0|]; subst f0;
